@@ -183,7 +183,7 @@ func ensureBuild() (string, error) {
 		if err := os.MkdirAll(filepath.Join(scratch, "build"), 0o755); err != nil {
 			return "", err
 		}
-		if err := vinstr.Instrument(vinstr.Options{RepoDir: repoDir, OutDir: filepath.Join(scratch, "goirc"), StmtPkg: "state", StmtTypes: map[string][]string{"client": {"hSet", "hList", "hNode", "Conn"}}, Exports: exports}); err != nil {
+		if err := vinstr.Instrument(vinstr.Options{RepoDir: repoDir, OutDir: filepath.Join(scratch, "goirc"), StmtPkg: "state", StmtTypes: map[string][]string{"client": {"hSet", "hList", "hNode", "Conn"}}, StmtAllPkgs: []string{"client"}, Exports: exports}); err != nil {
 			return "", fmt.Errorf("instrument: %w", err)
 		}
 		gomod := "module verifbuild\n\ngo 1.21\n\nrequire (\n\tgithub.com/fluffle/goirc v0.0.0\n\tverif v0.0.0\n)\n\nreplace verif => " + verifDir + "\n\nreplace github.com/fluffle/goirc => ../goirc\n"
